@@ -5,6 +5,7 @@
 #include "util/pcqueue.hh"
 #include "util/thread_pool.hh"
 #include "util/stream/chain.hh"
+#include "util/stream/stream.hh"
 #include "util/stream/config.hh"
 
 #include <boost/thread/thread.hpp>
@@ -316,8 +317,12 @@ std::string do_pcq(std::istringstream &in) {
 }
 
 // ------------------------------------------------------------------------------------------------
-// Chain: source -> stages -> sink.  Entries are uint32.  Stage "aN": add N to every entry; "fN": drop multiples of N
-// (compacting the block, possibly to zero valid bytes); "p": pass through.
+// Chain: source -> stages -> sink.  Entries are uint32.  Stages work on blocks through util::stream::Link:
+//   "aN": add N to every entry; "fN": drop multiples of N; "dA-B": drop the values in [A,B); "p": pass through
+//   (dropping compacts the block in place, possibly to zero valid bytes -- whole runs of empty blocks with dA-B / f1);
+// or on records through util::stream::Stream (the record-level view, which must skip every empty block):
+//   "sN": add N to every record in place.
+// CHAIN: Link-based source and sink;  CHAINS: Stream-based source (Stream::Poison ends it) and Stream-based sink.
 struct Source {
   uint32_t n;
   void Run(const util::stream::ChainPosition &pos) {
@@ -333,14 +338,27 @@ struct Source {
     l.Poison();
   }
 };
-struct Stage {
-  char kind; uint32_t arg;
+struct StreamSource {
+  uint32_t n;
   void Run(const util::stream::ChainPosition &pos) {
+    util::stream::Stream s(pos);
+    for (uint32_t next = 1; next <= n; ++next, ++s) *static_cast<uint32_t*>(s.Get()) = next;
+    s.Poison();
+  }
+};
+struct Stage {
+  char kind; uint32_t arg, arg2;
+  void Run(const util::stream::ChainPosition &pos) {
+    if (kind == 's') {
+      for (util::stream::Stream s(pos); s; ++s) *static_cast<uint32_t*>(s.Get()) += arg;
+      return;
+    }
     for (util::stream::Link l(pos); l; ++l) {
       uint32_t *b = static_cast<uint32_t*>(l->Get()); std::size_t cnt = l->ValidSize() / sizeof(uint32_t), w = 0;
       for (std::size_t i = 0; i < cnt; ++i) {
         if (kind == 'a') b[w++] = b[i] + arg;
         else if (kind == 'f') { if (b[i] % arg) b[w++] = b[i]; }
+        else if (kind == 'd') { if (b[i] < arg || b[i] >= arg2) b[w++] = b[i]; }
         else b[w++] = b[i];
       }
       l->SetValidSize(w * sizeof(uint32_t));
@@ -357,8 +375,19 @@ struct Sink {
     }
   }
 };
+struct StreamSink {
+  std::vector<uint32_t> *out; std::size_t limit;
+  void Run(const util::stream::ChainPosition &pos) {
+    for (util::stream::Stream s(pos); s; ++s) {
+      out->push_back(*static_cast<const uint32_t*>(s.Get()));
+      if (out->size() > limit) {   // the stream hands out more records than were ever written: it has left its blocks
+        std::cout << "spec:stream-delivers-more-records-than-produced count>" << limit << std::endl; _exit(4);
+      }
+    }
+  }
+};
 
-std::string do_chain(std::istringstream &in) {
+std::string do_chain(std::istringstream &in, bool streams) {
   std::size_t blocks, per; std::string stages; uint32_t n; uint64_t seed;
   in >> blocks >> per >> stages >> n >> seed;
   Scheduler::Get().Reset(0);
@@ -367,14 +396,18 @@ std::string do_chain(std::istringstream &in) {
   {
     util::stream::ChainConfig cc(sizeof(uint32_t), blocks, blocks * per * sizeof(uint32_t));
     util::stream::Chain chain(cc);
-    Source src; src.n = n;
-    chain >> src;
+    if (streams) { StreamSource src; src.n = n; chain >> src; } else { Source src; src.n = n; chain >> src; }
     if (stages != "-") {
       std::vector<std::string> f = split(stages, ',');
-      for (size_t i = 0; i < f.size(); ++i) { Stage s; s.kind = f[i][0]; s.arg = f[i].size() > 1 ? atoi(f[i].c_str() + 1) : 0; chain >> s; }
+      for (size_t i = 0; i < f.size(); ++i) {
+        Stage s; s.kind = f[i][0]; s.arg = f[i].size() > 1 ? atoi(f[i].c_str() + 1) : 0; s.arg2 = 0;
+        size_t dash = f[i].find('-');
+        if (dash != std::string::npos) s.arg2 = atoi(f[i].c_str() + dash + 1);
+        chain >> s;
+      }
     }
-    Sink sink; sink.out = &out; sink.blocks = &seen;
-    chain >> sink >> util::stream::kRecycle;
+    if (streams) { StreamSink sink; sink.out = &out; sink.limit = (std::size_t)n + 16; chain >> sink >> util::stream::kRecycle; }
+    else { Sink sink; sink.out = &out; sink.blocks = &seen; chain >> sink >> util::stream::kRecycle; }
     chain.Wait(true);
   }
   Scheduler::Get().SetJitter(0);
@@ -433,7 +466,8 @@ int main() {
       Deadline d(kind == "PCQ" ? 60 : 10);
       try {
         if (kind == "PCQ") res = do_pcq(in);
-        else if (kind == "CHAIN") res = do_chain(in);
+        else if (kind == "CHAIN") res = do_chain(in, false);
+        else if (kind == "CHAINS") res = do_chain(in, true);
         else if (kind == "POOL") res = do_pool(in);
         else res = "bad-case";
       } catch (const std::exception &e) { res = std::string("exception ") + e.what(); }
